@@ -195,6 +195,13 @@ func R7(p *core.Prog) *core.Result {
 					continue
 				}
 				key := pk + "." + fld + "|" + rf.Name()
+				// the end-of-input side works on behalf of the container that is open: a read there is the open
+				// container's own if it is guarded by a test that the open frame is a typed container (whose
+				// header step is the writer)
+				if !reach(fm.feedUntil, rf) && typedGuardedReads(p, rf, fld, st) {
+					r.Ok(".FIELD-ESTABLISHED", p.Pos(rf.Pos()), fmt.Sprintf("%s (end-of-input side) reads %s only behind a test that the open frame is a typed container", core.FuncKey(rf), fld))
+					continue
+				}
 				if reach(rf, w) {
 					r.Ok(".FIELD-ESTABLISHED", p.Pos(rf.Pos()), fmt.Sprintf("%s reads %s and its own steps include the only writer %s", core.FuncKey(rf), fld, w.Name()))
 				} else {
@@ -297,4 +304,58 @@ func fieldByName(st *types.Struct, name string) *types.Var {
 		}
 	}
 	return nil
+}
+
+// typedGuardedReads: every load of receiver field fld in f is dominated by the true edge of a test
+// `frame kind == <typed container constant>` (the comparison itself, or a boolean it was assigned to).
+func typedGuardedReads(p *core.Prog, f *ssa.Function, fld string, st *types.Struct) bool {
+	typed := map[string]bool{}
+	for _, n := range []string{"stArrayTyped", "stObjectTyped"} {
+		if nc := p.Const(core.FuncPkg(f).Name(), n); nc != nil && nc.Value.Value != nil {
+			typed[nc.Value.Value.ExactString()] = true
+		}
+	}
+	if len(typed) == 0 || f.Signature.Recv() == nil {
+		return false
+	}
+	isTypedTest := func(v ssa.Value) bool {
+		bo, ok := v.(*ssa.BinOp)
+		if !ok || bo.Op != token.EQL {
+			return false
+		}
+		c, ok := bo.Y.(*ssa.Const)
+		return ok && c.Value != nil && typed[c.Value.ExactString()]
+	}
+	found := false
+	for _, b := range f.Blocks {
+		for _, in := range b.Instrs {
+			ld, ok := in.(*ssa.UnOp)
+			if !ok || ld.Op != token.MUL {
+				continue
+			}
+			fa, ok := ld.X.(*ssa.FieldAddr)
+			if !ok || fa.X != ssa.Value(f.Params[0]) || core.FieldName(st, fa.Field) != fld {
+				continue
+			}
+			found = true
+			guarded := false
+			for d := b; d != nil && !guarded; d = d.Idom() {
+				id := d.Idom()
+				if id == nil {
+					break
+				}
+				iff, ok := id.Instrs[len(id.Instrs)-1].(*ssa.If)
+				if !ok || !isTypedTest(iff.Cond) {
+					continue
+				}
+				if t := id.Succs[0]; len(t.Preds) == 1 && (t == d || t.Dominates(d)) {
+					guarded = true
+				}
+			}
+			if !guarded {
+				return false
+			}
+		}
+	}
+	return found
 }
